@@ -157,6 +157,7 @@ extern "C" void sim_set_preempt_limit(long n) { g_preempt_limit = n; }
 static int enabled(SimClient *c)
 {
 	if (!c->alive) return 0;
+	if (c->gate_wait) return 0;
 	if (c->blocked_on >= 0 && g_mutex_owner[c->blocked_on] != -1) return 0;
 	return 1;
 }
@@ -210,9 +211,39 @@ extern "C" void sim_switch_point(int kind)
 	handoff(me, to);
 }
 
+static int release_gates(void)
+{
+	int n = 0;
+	for (int i = 0; i < g_n; i++) if (g_clients[i].gate_wait) { g_clients[i].gate_wait = 0; n++; }
+	return n;
+}
+
+// Rendezvous before a sink call (only for clients that asked for it): the caller parks until no other client can run that
+// is not itself parked at a gate; the last one to arrive releases all of them, so that their sink calls follow each other
+// with nothing in between.  Invisible to ThreadSanitizer like every other hand-over of the baton.
+extern "C" void sim_gate(void)
+{
+	SimClient *me = tl_self;
+	if (!g_active || !me || me == &g_main || !me->gate_on || g_budget) return;
+	me->gates_passed++;
+	me->gate_wait = 1;
+	for (;;) {
+		if (++g_steps > g_max_steps && g_max_steps > 0) { g_budget = 1; me->gate_wait = 0; release_gates(); return; }
+		SimClient *to = pick(me, 1, SW_API);       // an enabled client that is not parked at a gate
+		if (!to) {                                // everybody else is parked, blocked or finished: open the gate
+			me->gate_wait = 0;
+			if (release_gates() > 0) me->gates_joint++;
+			return;
+		}
+		handoff(me, to);
+		if (!me->gate_wait) { me->gates_joint++; return; }   // released by the last arrival
+	}
+}
+
 static void leave(SimClient *me, int kind)   // blocked or finished: somebody else must run
 {
 	SimClient *to = pick(me, 1, kind);
+	if (!to && release_gates() > 0) to = pick(me, 1, kind);   // only gate-waiters are left: let them go on
 	if (!to) {
 		int alive = 0;
 		for (int i = 0; i < g_n; i++) if (g_clients[i].alive) alive++;
@@ -286,6 +317,7 @@ extern "C" long sim_flag_wait(int i)
 		if (!g_active || !me || me == &g_main) return -1;
 		if (++g_steps > g_max_steps && g_max_steps > 0) { g_budget = 1; return -1; }
 		SimClient *to = pick(me, 1, SW_API);
+		if (!to && release_gates() > 0) to = pick(me, 1, SW_API);
 		if (!to) return -1;
 		handoff(me, to);
 	}
